@@ -77,6 +77,69 @@ def red_exact(m, p):
     return [[[red_frac(x, p), red_frac(y, p)] for (x, y) in row] for row in m]
 
 
+def cmul(a, b):
+    return (a[0] * b[0] - a[1] * b[1], a[0] * b[1] + a[1] * b[0])
+
+
+def mmul(A, B):
+    n, m, q = len(A), len(B), len(B[0])
+    out = [[cz() for _ in range(q)] for _ in range(n)]
+    for i in range(n):
+        for j in range(q):
+            re_ = Fraction(0)
+            im_ = Fraction(0)
+            for k in range(m):
+                x = cmul(A[i][k], B[k][j])
+                re_ += x[0]
+                im_ += x[1]
+            out[i][j] = (re_, im_)
+    return out
+
+
+def madj(A):
+    return [[(A[j][i][0], -A[j][i][1]) for j in range(len(A))] for i in range(len(A[0]))]
+
+
+def ident(d):
+    return [[(Fraction(int(i == j)), Fraction(0)) for j in range(d)] for i in range(d)]
+
+
+def unimodular_pair(rng, d, complex_):
+    """Integer (Gaussian-integer) matrix M with det = unit, and its exact inverse."""
+    M, Mi = ident(d), ident(d)
+    for _ in range(2 * d):
+        i, j = rng.sample(range(d), 2)
+        c = (Fraction(rng.choice([-2, -1, 1, 2])), Fraction(0))
+        if complex_ and rng.random() < 0.4:
+            c = (Fraction(0), c[0])
+        # row_i += c * row_j  on M ;  col_j -= c * col_i  on the inverse
+        for q in range(d):
+            x = cmul(c, M[j][q])
+            M[i][q] = (M[i][q][0] + x[0], M[i][q][1] + x[1])
+        for q in range(d):
+            x = cmul(Mi[q][i], c)
+            Mi[q][j] = (Mi[q][j][0] - x[0], Mi[q][j][1] - x[1])
+    return M, Mi
+
+
+def dyadic_unitary(rng, d, complex_):
+    """A unitary with dyadic entries: (HAD4 or DFT4)/2 summed with an identity, permuted."""
+    h = [[1, 1, 1, 1], [1, -1, 1, -1], [1, 1, -1, -1], [1, -1, -1, 1]]
+    f = [[1, 1, 1, 1], [1, 1j, -1, -1j], [1, -1, 1, -1], [1, -1j, -1, 1j]]
+    base = f if complex_ else h
+    Q = ident(d)
+    if d >= 4:
+        rows = rng.sample(range(d), 4)
+        for a, ra in enumerate(rows):
+            for b, rb in enumerate(rows):
+                z = complex(base[a][b]) / 2
+                Q[ra][rb] = (Fraction(z.real), Fraction(z.imag))
+    perm = list(range(d))
+    rng.shuffle(perm)
+    Q = [[Q[i][perm[j]] for j in range(d)] for i in range(d)]
+    return Q, madj(Q)
+
+
 def permute(m, order):
     return [[m[a][b] for b in order] for a in order]
 
@@ -95,12 +158,13 @@ def compositions(d, max_blocks=4):
 
 
 def gen_instance(rng, *, d=None, k=None, N=None, vtype="sympy", fdkind=None,
-                 sizes=None, complex_=None, shuffle=True, hermitian=True):
+                 sizes=None, complex_=None, shuffle=True, hermitian=True, complex_E=False, basis=None,
+                 hermitian_terms=None):
     """Draw one well-posed instance.  Dyadic energies for float value types."""
     dyadic = vtype in ("numpy", "sparse", "numpy_complex")
     d = d or rng.choice([2, 3, 3, 4, 4, 5])
     # energies of different blocks must differ; the dyadic family has 3 levels
-    sizes = sizes or rng.choice([c for c in compositions(d) if len(c) <= (3 if dyadic else 4)])
+    sizes = sizes or rng.choice([c for c in compositions(d) if len(c) <= ((4 if complex_E else 3) if dyadic else 4)])
     nb = len(sizes)
     k = k or rng.choice([1, 1, 2, 2, 3])
     if N is None:
@@ -124,10 +188,16 @@ def gen_instance(rng, *, d=None, k=None, N=None, vtype="sympy", fdkind=None,
     elif fdkind == "array":
         fd_blocks = [0]
     # energies: levels per state; degeneracies allowed where they end up kept
-    if dyadic:
+    if dyadic and complex_E:
+        s = rng.choice([0, 1, 2])
+        levels = [(Fraction(a * 2**s), Fraction(b * 2**s)) for a in (0, 1) for b in (0, 1)]
+    elif dyadic:
         s = rng.choice([0, 1, 2])
         shift = rng.choice([0, 0, -4, 8])
         levels = [Fraction(j * 2**s + shift) for j in range(3)]
+    elif complex_E:
+        levels = [(Fraction(a), Fraction(b)) for a, b in rng.sample(
+            [(x, y) for x in range(-3, 4) for y in (-2, 0, 1)], rng.randint(3, 7))]
     else:
         levels = [Fraction(v) for v in rng.sample(range(-4, 5), rng.randint(2, 6))]
     for _ in range(200):
@@ -172,17 +242,25 @@ def gen_instance(rng, *, d=None, k=None, N=None, vtype="sympy", fdkind=None,
             chosen.add(n)
     dens = (1, 2) if dyadic else (1, 1, 2, 3)
     terms = {}
+    herm_terms = hermitian if hermitian_terms is None else hermitian_terms
     for n in sorted(chosen):
-        gen = rand_herm if hermitian else rand_general
+        gen = rand_herm if herm_terms else rand_general
         m = gen(rng, d, complex_=complex_, dens=dens, amp=2 if dyadic else 3,
                 fill=rng.choice([0.5, 0.8, 1.0]))
         if not is_zero_mat(m):
             terms[n] = m
     if not terms:
-        gen = rand_herm if hermitian else rand_general
+        gen = rand_herm if herm_terms else rand_general
         terms[first[0]] = gen(rng, d, complex_=complex_, dens=dens, amp=2, fill=1.0)
     inst["terms"] = terms
     inst["complex"] = complex_
+    inst["basis"] = None
+    if basis == "pairs":
+        M, Mi = unimodular_pair(rng, d, complex_)
+        inst["basis"] = dict(kind="pairs", M=M, Mi=Mi)
+    elif basis == "unitary":
+        Q, Qd = dyadic_unitary(rng, d, complex_)
+        inst["basis"] = dict(kind="unitary", M=Q, Mi=Qd)
     return inst
 
 
@@ -236,9 +314,13 @@ def well_posed(inst):
 # ----------------------------------------------------------------------------
 # presenting an instance to pymablock and collecting the outputs
 # ----------------------------------------------------------------------------
+def epair(e):
+    return e if isinstance(e, tuple) else (e, Fraction(0))
+
+
 def h0_user(inst):
     d = inst["d"]
-    return [[(inst["E"][i], Fraction(0)) if i == j else cz() for j in range(d)] for i in range(d)]
+    return [[epair(inst["E"][i]) if i == j else cz() for j in range(d)] for i in range(d)]
 
 
 def concrete_hamiltonian(inst):
@@ -248,6 +330,9 @@ def concrete_hamiltonian(inst):
     vt = inst["vtype"]
     k = inst["k"]
     allterms = {(0,) * k: h0_user(inst), **inst["terms"]}
+    if inst.get("basis"):
+        M, Mi = inst["basis"]["M"], inst["basis"]["Mi"]
+        allterms = {n: mmul(M, mmul(m, Mi)) for n, m in allterms.items()}
     out = {}
     for n, m in allterms.items():
         if vt == "sympy":
@@ -276,6 +361,26 @@ def fd_argument(inst):
     raise ValueError(kind)
 
 
+def designation(inst):
+    """subspace_indices, or the eigenvector (pairs) of the rotated basis."""
+    if not inst.get("basis"):
+        return dict(subspace_indices=list(inst["sub_idx"]))
+    M, Mi = inst["basis"]["M"], inst["basis"]["Mi"]
+    L = madj(Mi)
+    nb = len(inst["sizes"])
+    vecs = []
+    for b in range(nb):
+        cols = [i for i in range(inst["d"]) if inst["sub_idx"][i] == b]
+        Rb = [[M[r][c] for c in cols] for r in range(inst["d"])]
+        Lb = [[L[r][c] for c in cols] for r in range(inst["d"])]
+        conv = to_sympy if inst["vtype"] == "sympy" else (lambda m: to_numpy(m, force_complex=inst.get("complex", False)))
+        if inst["basis"]["kind"] == "pairs":
+            vecs.append((conv(Rb), conv(Lb)))
+        else:
+            vecs.append(conv(Rb))
+    return dict(subspace_eigenvectors=tuple(vecs))
+
+
 def run_block_diagonalize(inst, **kwargs):
     import pymablock
 
@@ -284,9 +389,9 @@ def run_block_diagonalize(inst, **kwargs):
         warnings.simplefilter("ignore")
         return pymablock.block_diagonalize(
             H,
-            subspace_indices=list(inst["sub_idx"]),
             fully_diagonalize=fd_argument(inst),
             hermitian=inst.get("hermitian", True),
+            **designation(inst),
             **kwargs,
         )
 
@@ -375,7 +480,7 @@ def struct_record(inst, p):
     return dict(
         d=inst["d"],
         block=[inst["sub_idx"][i] for i in order],
-        E=[[red_frac(inst["E"][i], p), 0] for i in order],
+        E=[[red_frac(epair(inst["E"][i])[0], p), red_frac(epair(inst["E"][i])[1], p)] for i in order],
         fdkind="dict" if inst["fdkind"] == "array" else inst["fdkind"],
         fdset=list(inst["fd_blocks"]),
         elim=elim,
@@ -422,7 +527,12 @@ def describe(inst):
         return str(q)
 
     return dict(
-        d=inst["d"], sizes=inst["sizes"], sub_idx=inst["sub_idx"], E=[f(e) for e in inst["E"]],
+        d=inst["d"], sizes=inst["sizes"], sub_idx=inst["sub_idx"],
+        E=[[f(epair(e)[0]), f(epair(e)[1])] for e in inst["E"]],
+        basis=None if not inst.get("basis") else dict(
+            kind=inst["basis"]["kind"],
+            M=[[[f(x), f(y)] for (x, y) in row] for row in inst["basis"]["M"]],
+            Mi=[[[f(x), f(y)] for (x, y) in row] for row in inst["basis"]["Mi"]]),
         k=inst["k"], N=inst["N"], vtype=inst["vtype"], fdkind=inst["fdkind"],
         fd_blocks=inst["fd_blocks"], hermitian=inst.get("hermitian", True),
         masks={str(b): m.astype(int).tolist() for b, m in inst["masks"].items()},
@@ -436,7 +546,12 @@ def from_description(desc):
         return Fraction(s)
 
     return dict(
-        d=desc["d"], sizes=desc["sizes"], sub_idx=desc["sub_idx"], E=[g(e) for e in desc["E"]],
+        d=desc["d"], sizes=desc["sizes"], sub_idx=desc["sub_idx"],
+        E=[(g(e[0]), g(e[1])) if isinstance(e, list) else g(e) for e in desc["E"]],
+        basis=None if not desc.get("basis") else dict(
+            kind=desc["basis"]["kind"],
+            M=[[(g(x), g(y)) for (x, y) in row] for row in desc["basis"]["M"]],
+            Mi=[[(g(x), g(y)) for (x, y) in row] for row in desc["basis"]["Mi"]]),
         k=desc["k"], N=desc["N"], vtype=desc["vtype"], fdkind=desc["fdkind"],
         fd_blocks=desc["fd_blocks"], hermitian=desc.get("hermitian", True),
         masks={int(b): np.array(m, dtype=bool) for b, m in desc["masks"].items()},
